@@ -186,6 +186,15 @@ func (r *RigR) oracles() {
 			}
 		}
 	}
+	if errEvent {
+		for _, c := range sc.Colls {
+			for _, pt := range c.Parts {
+				if pt.Late >= 80 {
+					s.Probe("R_unknown_partition_reported")
+				}
+			}
+		}
+	}
 	// ---- C01 completeness
 	if !errEvent {
 		for vch, m := range delivered {
@@ -221,6 +230,11 @@ func (r *RigR) oracles() {
 					continue
 				}
 				s.Violate("C01", "missing", "stream %s: source message type=%s tag=%d ts=%d (read in pack ending at id %d, step %d) was never emitted", vch, ref.e.Kind, t, ref.e.Ts, ref.dp.EndSeq, ref.dp.Step)
+				if pt := c.part(ref.e.Part); pt != nil && pt.Late >= 80 {
+					// the message names a partition the downstream never makes known within the retry budget: it cannot be
+					// processed, and the reader has to report that (the server then pauses the task) - no error event was seen
+					s.Violate("C06", "R_unprocessable_message_skipped", "stream %s: message type=%s tag=%d names partition %q, whose downstream id cannot be learned within the retry budget; it was left out and no error was reported (the task would go on with a message missing)", vch, ref.e.Kind, t, pt.Name)
+				}
 			}
 		}
 	}
